@@ -114,7 +114,13 @@ class PeerManager(BaseManager):
         if self._settings.users.is_blocked(connection.username, BlockingFlag.SHARES):
             return
 
-        directories = self._shares_manager.create_directory_reply(message.directory)
+        # The files of a directory that is locked for the user are not listed
+        locked = self._shares_manager.is_remote_directory_locked(
+            message.directory, connection.username)
+        if locked is True:
+            directories = []
+        else:
+            directories = self._shares_manager.create_directory_reply(message.directory)
         await connection.send_message(
             PeerDirectoryContentsReply.Request(
                 ticket=message.ticket,
